@@ -934,10 +934,73 @@ func (e *Engine) dispatch(s *State, f *Frame, fn *ssa.Function, args []Value, bi
 		if cur == nil {
 			cur = &Ptr{}
 		}
+		shared := p.Obj <= e.baseMax
+		cellKey := fmt.Sprintf("cell%d%v", p.Obj, p.Path)
+		// the name an entry carries: its first string field, when that is a constant
+		entryName := func(st *State, ep *Ptr) string {
+			if ep == nil || ep.Obj == 0 {
+				return ""
+			}
+			if sv, ok := e.load(st, ep, site).(*StructV); ok {
+				for _, fv := range sv.F {
+					if str, ok := fv.(*StringV); ok {
+						if b := str.B.Norm(); b.Vec != nil {
+							raw := make([]byte, len(b.Vec))
+							for i, t := range b.Vec {
+								if !t.IsConst() {
+									return "?"
+								}
+								raw[i] = byte(t.Val)
+							}
+							return string(raw)
+						}
+						return "?"
+					}
+				}
+			}
+			return "?"
+		}
 		switch {
+		case strings.HasSuffix(name, ".Load") && shared && e.havocAtomic != nil:
+			// C19 layer 3: the cell's content is whatever some thread stored last: nil, or an entry carrying one
+			// of the candidate names (other fields zero: the value it stands for is tracked by the schedule)
+			et, _ := fn.Signature.Results().At(0).Type().Underlying().(*types.Pointer)
+			var est *types.Struct
+			if et != nil {
+				est, _ = et.Elem().Underlying().(*types.Struct)
+			}
+			if est == nil {
+				panic(engineUnsupported("nondeterministic atomic.Pointer load of a non-struct entry"))
+			}
+			var forks []*State
+			for _, nm := range e.havocAtomic {
+				o := s.clone()
+				ev := e.zero(et.Elem()).(*StructV)
+				nf := append([]Value{}, ev.F...)
+				for i := 0; i < est.NumFields(); i++ {
+					if b, ok := est.Field(i).Type().Underlying().(*types.Basic); ok && b.Kind() == types.String {
+						nf[i] = &StringV{B: ConstBytes(nm)}
+						break
+					}
+				}
+				id := o.newObj(&Obj{Kind: kCell, Val: &StructV{F: nf}})
+				o.trace = append(o.trace, TraceEv{Kind: "aload", Obj: p.Obj, Key: cellKey, Res: true, Name: nm, Site: site})
+				setRes(o, x, &Ptr{Obj: id})
+				forks = append(forks, o)
+			}
+			s.trace = append(s.trace, TraceEv{Kind: "aload", Obj: p.Obj, Key: cellKey, Res: false, Site: site})
+			set(&Ptr{})
+			return forks
 		case strings.HasSuffix(name, ".Load"):
+			if shared {
+				s.trace = append(s.trace, TraceEv{Kind: "aload", Obj: p.Obj, Key: cellKey, Res: cur.Obj != 0, Name: entryName(s, cur), Site: site})
+			}
 			set(cur)
 		case strings.HasSuffix(name, ".Store"):
+			if shared {
+				np, _ := args[1].(*Ptr)
+				s.trace = append(s.trace, TraceEv{Kind: "astore", Obj: p.Obj, Key: cellKey, Res: np != nil && np.Obj != 0, Name: entryName(s, np), Site: site})
+			}
 			e.store(s, fp, args[1], site)
 		case strings.HasSuffix(name, ".Swap"):
 			e.store(s, fp, args[1], site)
